@@ -35,6 +35,7 @@ func checkC14(r *core.Run) {
 	c14FixedWidth(r, p)
 	c14Radix(r, p)
 	c14Path(r, p)
+	c14WipedNotParent(r, p, "R-C14-path")
 }
 
 // c14FixedWidth: a private key is 32 bytes whatever its numeric value. big.Int.Bytes() drops leading
@@ -948,4 +949,152 @@ func c14ReturnsDecoderError(p *core.Program) bool {
 		}
 	})
 	return ok && n > 0
+}
+
+// c14WipedNotParent: the wallet wipes a finished key chain's secret and chain code (ClearBuffer fills them with
+// random bytes) and then derives the next chain from the kept parent.  The parent must be another object than
+// the chain just wiped - otherwise the next chain is derived from random bytes and differs on every run.
+// For every derivation X.Child(..) in make_wallet that comes after a ClearBuffer of a field of Y on every
+// path: X and Y never hold the same object.  Decided on the values X can take (through phis): nil, or a value
+// read from the variable Y is read from at a point after which that variable is always given a freshly
+// derived object before the wipe.
+func c14WipedNotParent(r *core.Run, p *core.Program, rule string) {
+	const key = "wiped-chain-is-not-the-parent"
+	fn := p.Func("wallet.make_wallet")
+	if fn == nil {
+		r.Fail(rule, key, "-", "make_wallet not found")
+		return
+	}
+	derives := an.CallsTo(fn, false, "(*lib/btc.HDWallet).Child")
+	wipes := an.CallsTo(fn, false, "lib/others/sys.ClearBuffer")
+	objOfWipe := func(c ssa.CallInstruction) ssa.Value { // ClearBuffer(*(&Y.f)) -> Y
+		ld, ok := c.Common().Args[0].(*ssa.UnOp)
+		if !ok {
+			return nil
+		}
+		fa, ok := ld.X.(*ssa.FieldAddr)
+		if !ok {
+			return nil
+		}
+		return fa.X
+	}
+	instrBefore := func(a, b ssa.Instruction) bool { // a is executed before b whenever b is
+		if a.Block() == b.Block() {
+			for _, i := range a.Block().Instrs {
+				if i == a {
+					return true
+				}
+				if i == b {
+					return false
+				}
+			}
+		}
+		return a.Block().Dominates(b.Block())
+	}
+	freshStore := func(st *ssa.Store) bool {
+		c, ok := st.Val.(*ssa.Call)
+		return ok && (an.CallName(c) == "(*lib/btc.HDWallet).Child" || an.CallName(c) == "lib/btc.MasterKey")
+	}
+	n := 0
+	var bad []string
+	for _, d := range derives {
+		x := d.Common().Args[0]
+		for _, w := range wipes {
+			if !instrBefore(w.(ssa.Instruction), d.(ssa.Instruction)) {
+				continue
+			}
+			y := objOfWipe(w)
+			if y == nil {
+				continue
+			}
+			n++
+			if x == y {
+				bad = append(bad, "derivation at "+p.Pos(d.Pos())+" from the object wiped at "+p.Pos(w.Pos()))
+				continue
+			}
+			yl, ok := y.(*ssa.UnOp)
+			if !ok || yl.Op != token.MUL {
+				continue // another variable: not comparable here
+			}
+			cell := yl.X
+			for _, leaf := range an.PhiLeaves(x) {
+				switch lf := leaf.(type) {
+				case *ssa.Const:
+					continue
+				case *ssa.UnOp:
+					if lf.Op == token.MUL && lf.X == cell {
+						// from the read to the wipe the variable must always be given a fresh object
+						if c14ReachWithoutFreshStore(lf, yl, cell, freshStore) {
+							bad = append(bad, "the parent used at "+p.Pos(d.Pos())+" can be the object read at "+p.Pos(lf.Pos())+", which is still the one wiped at "+p.Pos(w.Pos()))
+						}
+						continue
+					}
+				case *ssa.Call:
+					// a derived object kept as parent: it must not also be what the wiped variable holds
+					aliased := false
+					if lf.Referrers() != nil {
+						for _, ref := range *lf.Referrers() {
+							if st, ok := ref.(*ssa.Store); ok && st.Addr == cell && st.Val == ssa.Value(lf) {
+								aliased = true
+							}
+						}
+					}
+					if aliased {
+						bad = append(bad, "the parent used at "+p.Pos(d.Pos())+" is the object derived at "+p.Pos(lf.Pos())+", which is also stored in the variable wiped at "+p.Pos(w.Pos()))
+					}
+					continue
+				}
+				bad = append(bad, "the origin of the parent used at "+p.Pos(d.Pos())+" is not recognised ("+an.Anon(an.Expr(leaf))+")")
+			}
+		}
+	}
+	sort.Strings(bad)
+	r.Check(n >= 1 && len(bad) == 0, rule, key, p.Pos(fn.Pos()), fmt.Sprintf("%d derivations after a wipe, none from the wiped object", n), strings.Join(bad, "; "))
+}
+
+// c14ReachWithoutFreshStore: a path from the load 'from' to the load 'to' on which the cell is not assigned a
+// fresh object.
+func c14ReachWithoutFreshStore(from, to *ssa.UnOp, cell ssa.Value, fresh func(*ssa.Store) bool) bool {
+	// scan from just after 'from'
+	scan := func(b *ssa.BasicBlock, start int) (hitTo, blocked bool) {
+		for _, ins := range b.Instrs[start:] {
+			if ins == ssa.Instruction(to) {
+				return true, false
+			}
+			if st, ok := ins.(*ssa.Store); ok && st.Addr == cell && fresh(st) {
+				return false, true
+			}
+		}
+		return false, false
+	}
+	start := 0
+	for i, ins := range from.Block().Instrs {
+		if ins == ssa.Instruction(from) {
+			start = i + 1
+		}
+	}
+	if hit, blocked := scan(from.Block(), start); hit {
+		return true
+	} else if blocked {
+		return false
+	}
+	seen := map[*ssa.BasicBlock]bool{}
+	st := append([]*ssa.BasicBlock{}, from.Block().Succs...)
+	for len(st) > 0 {
+		b := st[len(st)-1]
+		st = st[:len(st)-1]
+		if seen[b] {
+			continue
+		}
+		seen[b] = true
+		hit, blocked := scan(b, 0)
+		if hit {
+			return true
+		}
+		if blocked {
+			continue
+		}
+		st = append(st, b.Succs...)
+	}
+	return false
 }
